@@ -46,6 +46,10 @@ type Finding struct {
 type Rec struct {
 	mu sync.Mutex
 
+	// ShrinkTime, if set, bounds rapid's minimisation (e.g. "10s") for checks
+	// whose failing cases are slow to re-run.
+	ShrinkTime string
+
 	ID     string
 	Tier   string
 	Seed   int64
@@ -297,6 +301,9 @@ func (r *Rec) Rapid(t *testing.T, sub string, checks int, prop func(t *rapid.T))
 	flag.Set("rapid.checks", strconv.Itoa(per))
 	flag.Set("rapid.seed", strconv.FormatUint(seed, 10))
 	flag.Set("rapid.nofailfile", "true")
+	if r.ShrinkTime != "" {
+		flag.Set("rapid.shrinktime", r.ShrinkTime)
+	}
 	t.Run(sub, func(t *testing.T) {
 		defer r.Commit()
 		rapid.Check(t, func(rt *rapid.T) {
